@@ -1,11 +1,11 @@
 #!/bin/sh
 # usage: tools/try_mut.sh <Cxx> <patch.diff> [tier]  -- apply a seeded change to /repo, run the check, undo it
-PID=$1; PATCH=$2; TIER=${3:-quick}
+PID=$1; PATCH=$(readlink -f "$2"); TIER=${3:-quick}
 cd /repo || exit 9
 git diff --quiet || { echo "/repo not clean" >&2; exit 9; }
 git apply "$PATCH" || { echo "patch does not apply" >&2; exit 9; }
-/verif/bin/check "$PID" --tier "$TIER" > /tmp/try_mut_$PID.log 2>&1
+trap 'cd /repo && git checkout -- .' EXIT INT TERM
+timeout ${TRY_TIMEOUT:-900} /verif/bin/check "$PID" --tier "$TIER" > /tmp/try_mut_$PID.log 2>&1
 rc=$?
-git checkout -- . 
-grep -E "^(VIOLATION|KNOWN-FINDING|INCONCLUSIVE)|exit=" /tmp/try_mut_$PID.log | cut -c1-260 | head -8
+grep -E "^(VIOLATION|KNOWN-FINDING|INCONCLUSIVE)|exit=" /tmp/try_mut_$PID.log | cut -c1-260 | head -6
 echo "rc=$rc"
